@@ -297,7 +297,7 @@ def jobs(tier, seed):
     return out
 
 
-BUDGET = {"quick": None, "thorough": 20 * 60}
+BUDGET = {"quick": None, "thorough": 12 * 60}
 
 
 def classify(job, label, model):
